@@ -1588,8 +1588,11 @@ def make_layout_table(shape):
         fixed = {o: False for o in OPTS}
         del fixed["fixed_numpad"]
         cfg, opts = mk_config(prog, st, fixed)
-        st.ctx = dict(key=key, mod=mod, opts=opts, entries=entries, shape=shape)
+        # the configuration after a re-configuration with the same layout file (the method object and its layout stay): every option again a symbol
+        cfg2, opts2 = mk_config(prog, st, fixed, tag="opt2_")
+        st.ctx = dict(key=key, mod=mod, opts=opts, opts2=opts2, entries=entries, shape=shape)
         fn = prog.find_trait_fn("FixedMethod", "Method", "get_suggestion")
+        fin = prog.find_trait_fn("FixedMethod", "Method", "finish_input_session")
         parse = prog.find_fn("Layout", "parse")
 
         def run():
@@ -1599,18 +1602,27 @@ def make_layout_table(shape):
             fm = struct_of(prog, "FixedMethod", {"buffer": SString([]), "typed": SString([]), "pending_kar": pending_value(prog, None),
                                                  "suggestions": SVec([]), "layout": lay.fields[0]}, st=st)
             st.ctx["fm"] = fm
-            return it.call_function(fn, [Ref([fm], 0, True), key, mod, st.sym_bv("selection", 8), Ref([Opaque("Data")], 0), Ref([cfg], 0)])
+            r1 = it.call_function(fn, [Ref([fm], 0, True), key, mod, st.sym_bv("selection", 8), Ref([Opaque("Data")], 0), Ref([cfg], 0)])
+            st.ctx["buf1"] = list(fm_field(prog, fm, "buffer").elems)
+            st.ctx["state1"] = fixed_state(prog, None, fm) if False else None
+            # the word is finished, the options are changed, the same key is pressed again on the same method object
+            it.call_function(fin, [Ref([fm], 0, True)])
+            r2 = it.call_function(fn, [Ref([fm], 0, True), key, mod, st.sym_bv("selection2", 8), Ref([Opaque("Data")], 0), Ref([cfg2], 0)])
+            st.ctx["r2"] = r2
+            return r1
         return run
 
     def inputs(model, c):
         lay = {nm: model_string(model, v) for nm, v in c["entries"].items() if v is not None}
         lay["Key_zz_Normal"] = "x"
-        return dict(key=int(model_value(model, c["key"])), mod=int(model_value(model, c["mod"])), numpad=bool(model_value(model, c["opts"]["fixed_numpad"])), layout=lay, asked=[])
+        return dict(key=int(model_value(model, c["key"])), mod=int(model_value(model, c["mod"])), numpad=bool(model_value(model, c["opts"]["fixed_numpad"])),
+                    numpad_after=bool(model_value(model, c["opts2"]["fixed_numpad"])), layout=lay, asked=[])
 
     def predicted(prog, model, c, out):
         if out[0] == "panic":
             return dict(panic=out[1].message)
-        return dict(state=fixed_state(prog, model, c["fm"]), ret=render_suggestion(prog, model, out[1]))
+        st1 = dict(buffer=model_string(model, c["buf1"]), typed="")
+        return dict(state=st1, ret=render_suggestion(prog, model, out[1]), second=render_suggestion(prog, model, c["r2"]))
 
     def on_path(st, it, out):
         prog = it.p
@@ -1623,33 +1635,43 @@ def make_layout_table(shape):
         key, mod = c["key"], c["mod"]
         altgr = (mod & 2) != 0
         numpad = zb(c["opts"]["fixed_numpad"])
-        buf = fm_field(prog, c["fm"], "buffer").elems
+        numpad2 = zb(c["opts2"]["fixed_numpad"])
+        buf = c["buf1"]
+        buf2 = fm_field(prog, c["fm"], "buffer").elems
         ret = out[1]
+        ret2 = c["r2"]
         single = prog.enums["Suggestion"]["Single"]
         txt = ret.fields[prog.enum_fields[("Suggestion", "Single")].index("suggestion")].elems if ret.variant == single else None
         clauses = []
         if txt is None:
             clauses.append(("returns_single_string", False))
         else:
-            nothing = z3.BoolVal(len(buf) == 0 and len(txt) == 0)
+            single2 = isinstance(ret2, Agg) and ret2.variant == single
+            txt2 = ret2.fields[prog.enum_fields[("Suggestion", "Single")].index("suggestion")].elems if single2 else []
 
-            def emits(val):
-                if val is None or len(val) == 0:
-                    return nothing, z3.BoolVal(False)
-                silent = zin(val[0], CL.KARS + CL.RARE) if len(val) >= 2 else z3.BoolVal(False)
-                return z3.Or(silent, z3.And(seq_eq(buf, val), seq_eq(txt, val))), z3.Not(silent)
-            if kind == "key":
-                en, cn = emits(c["entries"].get("Key_%s_Normal" % stem))
-                ea, ca = emits(c["entries"].get("Key_%s_AltGr" % stem))
-                want = z3.If(key == code, z3.If(altgr, ea, en), nothing)
-                clauses.append(("cover:emits", z3.And(key == code, z3.If(altgr, ca, cn))))
-            else:
+            def law(buf_, txt_, numpad_):
+                nothing = z3.BoolVal(len(buf_) == 0 and len(txt_) == 0)
+
+                def emits(val):
+                    if val is None or len(val) == 0:
+                        return nothing, z3.BoolVal(False)
+                    silent = zin(val[0], CL.KARS + CL.RARE) if len(val) >= 2 else z3.BoolVal(False)
+                    return z3.Or(silent, z3.And(seq_eq(buf_, val), seq_eq(txt_, val))), z3.Not(silent)
+                if kind == "key":
+                    en, cn = emits(c["entries"].get("Key_%s_Normal" % stem))
+                    ea, ca = emits(c["entries"].get("Key_%s_AltGr" % stem))
+                    return z3.If(key == code, z3.If(altgr, ea, en), nothing), z3.And(key == code, z3.If(altgr, ca, cn))
                 e1, c1 = emits(c["entries"].get(stem))
-                want = z3.If(z3.And(key == code, numpad), e1, nothing)
-                clauses.append(("cover:emits", z3.And(key == code, numpad, c1)))
+                return z3.If(z3.And(key == code, numpad_), e1, nothing), z3.And(key == code, numpad_, c1)
+            want, cov = law(buf, txt, numpad)
+            clauses.append(("cover:emits", cov))
+            if kind != "key":
                 clauses.append(("cover:numpad_off_inert", z3.And(key == code, z3.Not(numpad))))
             clauses.append(("key_emits_exactly_what_the_file_assigns", want))
             clauses.append(("cover:inert", key != code))
+            # the same key after the word was finished and the options were changed: the options now in force decide
+            want2, _ = law(buf2, txt2, numpad2)
+            clauses.append(("key_obeys_the_options_in_force_now", z3.And(z3.BoolVal(bool(single2)), want2)))
         for cname, formula in clauses:
             if cname.startswith("cover:"):
                 if formula is True or (formula is not False and st.feasible(formula)):
@@ -1666,10 +1688,12 @@ def make_layout_table(shape):
     return build, on_path
 
 
-def obl_layout_table(check, thorough=False, budget_s=None):
+def obl_layout_table(check, thorough=False, budget_s=None, numpad_rows_only=False):
     from common import keyname_spec, published_keys
     spec = keyname_spec()
     rows = [(n, c, spec[n][1], spec[n][2]) for n, c in published_keys() if n in spec and spec[n][2] in ("key", "numpad")]
+    if numpad_rows_only:
+        rows = [r for r in rows if r[3] == "numpad"] + [r for r in rows if r[3] == "key"][:4]
     shapes = []
     for i, r in enumerate(rows):
         # quick: the key itself, the next key of the table, a key outside every layout, an unpublished code; thorough: all 2^16 codes
@@ -1682,7 +1706,7 @@ def obl_layout_table(check, thorough=False, budget_s=None):
     wit = [r for r in records if r["kind"] == "witness"]
     vio = [r for r in records if r["kind"] == "violation" and (getattr(check, "only_clauses", None) is None or r["clause"] in check.only_clauses)]
     covers = set(r["name"] for r in records if r["kind"] == "cover")
-    okc, bad = validate_witnesses(check, "layout_table", wit, to_scenario=layout_scenario, compare=layout_compare, cap=2500)
+    okc, bad = validate_witnesses(check, "layout_table", wit, to_scenario=table_scenario, compare=table_compare, cap=2500)
     detail = "%d layout keys, %d paths, %d witnesses replayed natively (%d agree)" % (len(rows), summ["paths"], min(len(wit), 2500), okc)
     name = "layout_table"
     if errors:
@@ -1708,9 +1732,9 @@ def obl_layout_table(check, thorough=False, budget_s=None):
     for key, vs in sorted(groups.items()):
         conf = None
         for v in vs[:12]:
-            sc = layout_scenario(v["inputs"])
+            sc = table_scenario(v["inputs"])
             res = run_replay([sc])[0]
-            if layout_compare(v, res) is None:
+            if table_compare(v, res) is None:
                 conf = (v, sc, res)
                 break
         if conf is None:
@@ -1719,9 +1743,9 @@ def obl_layout_table(check, thorough=False, budget_s=None):
         else:
             v, sc, res = conf
             i = v["inputs"]
-            what = "key %s (0x%04X) modifier %d numpad=%s with layout %s composes %r (%s)" % (
+            what = "key %s (0x%04X) modifier %d numpad=%s with layout %s composes %r; pressed again after the word was finished and the number-pad option set to %s (update_engine, same layout): %r (%s)" % (
                 names.get(i["key"], "unpublished"), i["key"], i["mod"], i["numpad"], json.dumps(i["layout"], ensure_ascii=False),
-                v["predicted"].get("state", {}).get("buffer"), v["clause"])
+                v["predicted"].get("state", {}).get("buffer"), i.get("numpad_after"), v["predicted"].get("second", {}).get("text"), v["clause"])
             check.stats["traces_validated"] += 1
             st2 = check.finding(key + " " + names.get(i["key"], "unpublished"), what, dict(scenario=sc, observed=res["results"][1:], inputs=i))
             check.sample(dict(obligation=name, counterexample=i, role=key))
@@ -1734,6 +1758,26 @@ def layout_scenario(inp):
     opts = {"numpad": inp["numpad"]}
     return {"steps": [{"op": "new", "config": {"layout_json": inp["layout"] or {"Key_zz_Normal": "x"}, "opts": opts}},
                       {"op": "key", "key": inp["key"], "mod": inp["mod"], "sel": 0}, {"op": "get_state"}]}
+
+
+def table_scenario(inp):
+    lay = inp["layout"] or {"Key_zz_Normal": "x"}
+    return {"steps": [{"op": "new", "config": {"layout_json": lay, "opts": {"numpad": inp["numpad"]}}},
+                      {"op": "key", "key": inp["key"], "mod": inp["mod"], "sel": 0}, {"op": "get_state"}, {"op": "finish"},
+                      {"op": "update", "config": {"layout_json": lay, "opts": {"numpad": inp.get("numpad_after", inp["numpad"])}}},
+                      {"op": "key", "key": inp["key"], "mod": inp["mod"], "sel": 0}]}
+
+
+def table_compare(w, res):
+    r = layout_compare(w, res)
+    if r is not None or w["predicted"].get("panic") is not None:
+        return r
+    ev2 = res["results"][5]
+    if "panic" in ev2:
+        return "native run panics at the second press: " + ev2["panic"]
+    if ev2.get("suggestion", {}).get("text") != w["predicted"].get("second", {}).get("text"):
+        return "second press: native text %r symbolic %r" % (ev2.get("suggestion", {}).get("text"), w["predicted"].get("second", {}).get("text"))
+    return None
 
 
 def layout_compare(w, res):
